@@ -186,6 +186,11 @@ func ecThumbprintInput(curve elliptic.Curve, x, y *big.Int) (string, error) {
 }
 
 func rsaThumbprintInput(n *big.Int, e int) (string, error) {
+	// A zero exponent has no octets (newBufferFromInt yields a nil buffer), such as
+	// in a key unmarshalled from a JWK with "e":"AA"; it is not a valid key.
+	if n == nil || e == 0 {
+		return "", fmt.Errorf("square/go-jose: invalid RSA key, missing n/e values")
+	}
 	return fmt.Sprintf(rsaThumbprintTemplate,
 		newBufferFromInt(uint64(e)).base64(),
 		newBuffer(n.Bytes()).base64()), nil
